@@ -26,7 +26,7 @@
    distribution of samples for d >= 3 (the row sampler conditions every inverse on the raw uniform of the
    variable visited last: Spec.VineSampleR.sample_three_columns); multi-row uni_matrix in
    get_likelihood (the model is for a one-row matrix, the only case the property quantifies over). *)
-From Coq Require Import List Arith ZArith QArith Lia Bool Permutation Reals Lra Lqa.
+From Coq Require Import List Arith ZArith QArith Qreals Lia Bool Permutation Reals Lra Lqa.
 From Cop Require Import Lib.NumpyR Lib.FinGraph Model.Vine Model.VineData
      Spec.VineDefs Spec.VineSets Spec.VineSort Spec.VineCenter Spec.VineDirect Spec.VineRegular Spec.VinePairs Spec.VineValid
      Spec.VineDataProv Spec.VineDataChain Spec.VineDataFlags Spec.VineDataProofs
@@ -499,19 +499,26 @@ Proof.
 Qed.
 
 (* the executable (rational) printing of the same line agrees with the real one *)
+Lemma C17_q2r_qmax : forall a b : Q, Q2R (vc_qmax a b) = Rmax (Q2R a) (Q2R b).
+Proof.
+  intros a b. unfold vc_qmax. destruct (Qle_bool a b) eqn:E.
+  - apply Qle_bool_iff in E. apply Qreals.Qle_Rle in E. rewrite Rmax_right; auto.
+  - assert (H : (b < a)%Q) by (apply Qnot_le_lt; intro H; apply Qle_bool_iff in H; congruence).
+    apply Qreals.Qlt_Rlt in H. rewrite Rmax_left by Lra.lra. reflexivity.
+Qed.
+Lemma C17_q2r_qmin : forall a b : Q, Q2R (vc_qmin a b) = Rmin (Q2R a) (Q2R b).
+Proof.
+  intros a b. unfold vc_qmin. destruct (Qle_bool a b) eqn:E.
+  - apply Qle_bool_iff in E. apply Qreals.Qle_Rle in E. rewrite Rmin_left; auto.
+  - assert (H : (b < a)%Q) by (apply Qnot_le_lt; intro H; apply Qle_bool_iff in H; congruence).
+    apply Qreals.Qlt_Rlt in H. rewrite Rmin_right by Lra.lra. reflexivity.
+Qed.
 Lemma C17_bridge_sample_clip_q : forall x : Q, Q2R (vc_sample_clip_q x) = vc_sample_clip (Q2R x).
 Proof.
-  intros x. unfold vc_sample_clip_q, vc_sample_clip, vc_qmin, vc_qmax, vc_EPSILON_q, vc_EPSILON, np_minimum, np_maximum, np_clip.
-  repeat match goal with
-         | |- context [Qle_bool ?a ?b] =>
-             let E := fresh "E" in
-             destruct (Qle_bool a b) eqn:E;
-             [apply Qle_bool_iff in E; apply Qle_Rle in E
-             | assert (~ (a <= b)%Q) as E' by (intro HH; apply Qle_bool_iff in HH; congruence);
-               apply Qnot_le_lt in E'; apply Qlt_Rlt in E'; clear E]
-         end;
-  repeat match goal with H : context [Q2R (?n # ?m)] |- _ => change (Q2R (n # m)) with (IZR n * / IZR (Zpos m))%R in H end;
-  repeat match goal with |- context [Q2R (?n # ?m)] => change (Q2R (n # m)) with (IZR n * / IZR (Zpos m))%R end;
+  intros x. unfold vc_sample_clip_q, vc_sample_clip, np_minimum, np_maximum, np_clip.
+  rewrite ?C17_q2r_qmin, ?C17_q2r_qmax, ?Qreals.Q2R_minus, ?Qreals.Q2R_plus, ?Qreals.Q2R_mult.
+  unfold vc_EPSILON_q, vc_EPSILON.
+  repeat match goal with |- context [Q2R (?n # ?m)] => change (Q2R (n # m)) with (IZR n * / IZR (Zpos m))%R end.
   r_minmax; Lra.lra.
 Qed.
 
